@@ -12,6 +12,23 @@ NOTE = ("Bounded: TLC is exhaustive only within the stated constants; the Python
         "harness's embedding/projection of floats and labels (harness/tier.py), my reading of the statement in spec/*Prop.tla.")
 
 CLAIMED = {
+ "C01": ("spec/MC_File.tla (FileMachine) + spec/PraatText.tla + spec/FileProp.tla (RoundTripClauses) + spec/Trace_File.tla", "5 (C01)",
+         "TLC checks on the FileMachine that the specification's reader inverts the specification's writers for every document of the universe; "
+         "those documents (x label pools x number pools incl. near-integers, 17-digit decimals, 1e-17..1e15) and random textgrids go through the real "
+         "save -> open -> save for 4 formats x includeBlankSpaces x includeEmptyIntervals; TLC compares memory and reopened documents with numbers "
+         "as ranks of bit patterns (only the stated 1e-14 near-integer allowance) and checks the fixed point."),
+ "C02": ("spec/PraatText.tla (Lex/ParseTextGrid written from Praat's file-format rule) + spec/FileProp.tla (SaveClausesC02) + spec/Trace_File.tla", "5 (C02)",
+         "every file written by the real Textgrid.save (4 formats, blanks on/off, overrides; keyword-like labels and names) is lexed and parsed by the "
+         "TLA+ formalisation of the format, evaluated by TLC character by character, and compared with the in-memory document; declared sizes, "
+         "quote doubling, partition of the file span and agreement of the four formats are clauses."),
+ "C03": ("spec/MC_File.tla (EncShort/EncLong praat+ELAN as independent writers) + spec/FileProp.tla (OpenClauses, AgreeClauses)", "5 (C03)",
+         "TLC encodes every document of the universe in short, long and ELAN-long layout (all number spellings, -0, empty tiers, blank and "
+         "white-space labels, duplicate names); the files (x 4 encodings x LF/CRLF x number pools) and structural JSON files are opened by the real "
+         "openTextgrid and TLC compares the result with what the file encodes."),
+ "C04": ("spec/FileImpl.tla (transcription of _fillInBlanks/_removeUltrashortIntervals) + spec/FileProp.tla (PrepClauses, SaveClausesC04) + spec/MC_File.tla (prep mode)", "5 (C04)",
+         "TLC checks the transcription of the save preparation against the sliver relation for every interval tier x span override x threshold of the "
+         "grid universe; the same cases and random tiers on exact dyadic grids around the threshold are saved by the real code in all four formats, "
+         "decoded by the TLA+ reader and judged by TLC."),
  "C05": ("spec/MC_Tier.tla + spec/TierProp.tla (WFClauses) + spec/Trace_Tier.tla", "5 (C05)",
          "TLC checks RecvWF/NoFail on the tier state machine for all 16 operations from every well-formed start state; every "
          "transition, random millisecond-grid vectors and random live histories (<= 12 steps, exact dyadic arithmetic) are executed on "
